@@ -757,11 +757,12 @@ Section Dead.
     exists extra, done s' = done s ++ extra /\ forall c, In c extra -> c_ok c = false.
   Proof.
     induction sched as [|ia r IH]; intros s s' D H; cbn [run] in H.
-    - injection H as <-. repeat split; auto. exists []. split; [now rewrite app_nil_r|intros c []].
+    - injection H as <-. split; [exact D|]. split; [reflexivity|]. split; [reflexivity|].
+      exists []. split; [now rewrite app_nil_r|intros c []].
     - destruct (step msh mx true s ia) as [s1|] eqn:E; [|discriminate].
       destruct (dead_step mx s ia s1 D E) as [D1 [W1 [T1 Hd1]]].
       destruct (IH s1 s' D1 H) as [D2 [W2 [T2 [extra [Hd2 Hx]]]]].
-      repeat split; [exact D2|congruence|congruence|].
+      split; [exact D2|]. split; [congruence|]. split; [congruence|].
       destruct Hd1 as [Hd1|[c [Hd1 Hc]]].
       + exists extra. split; [congruence|exact Hx].
       + exists (c :: extra). split; [rewrite Hd2, Hd1, <- app_assoc; reflexivity|].
